@@ -96,6 +96,9 @@ def _specs(ns):
     if key not in _SPECS:
         _SPECS.clear()
         _SPECS[key] = rule_specs(ns, max_s=2, max_o=2, antichain=False)
+        # the root module itself as single subject or object
+        _SPECS[key] += [sp for sp in rule_specs(ns, max_s=1, max_o=1, antichain=False, exclude=(), aliases=True)
+                        if ns[0] in sp["subj"] or (sp.get("obj") and ns[0] in sp["obj"])]
     return _SPECS[key]
 
 
